@@ -102,20 +102,24 @@ Blobs(s) == 1..Len(Lay(s).blobs)
 (*  NP  NMT range proof inside a row tree (nmt.Proof / tmproto.NMTProof)   *)
 (*      [key: leaves of the row tree, for: <<start,end>> it was made for,  *)
 (*       start, end, nodes]                                                *)
-(*  aunts / nodes: "ok" | "short" | "long" | "alt" (one node replaced)     *)
+(*  aunts / nodes: the list of sibling hashes, abstractly <<"a","b">> for  *)
+(*  an honest proof; manipulations drop the last, append "x", or replace   *)
+(*  the first by "a*" (and back), so that composed manipulations that      *)
+(*  restore the list are recognised as such                                *)
 (***************************************************************************)
-HonestMP(s, r) == [tree |-> s, row |-> r, index |-> r, total |-> 4 * W(s), aunts |-> "ok"]
+HonestNodes == <<"a", "b">>
+HonestMP(s, r) == [tree |-> s, row |-> r, index |-> r, total |-> 4 * W(s), aunts |-> HonestNodes]
 
 \* merkle.Proof.Verify(root, leaf)
 MPVerifies(mp, root, leaf) ==
   /\ root = DataRoot(mp.tree)
-  /\ mp.index = mp.row /\ mp.total = 4 * W(mp.tree) /\ mp.aunts = "ok"
+  /\ mp.index = mp.row /\ mp.total = 4 * W(mp.tree) /\ mp.aunts = HonestNodes
   /\ leaf = RowRootOf(mp.tree, mp.row)
 
-HonestNP(s, r, from, to) == [key |-> RowLeaves(s, r), for |-> <<from, to>>, start |-> from, end |-> to, nodes |-> "ok"]
+HonestNP(s, r, from, to) == [key |-> RowLeaves(s, r), for |-> <<from, to>>, start |-> from, end |-> to, nodes |-> HonestNodes]
 
 NPSound(np, rowRoot) ==
-  /\ np.nodes = "ok" /\ <<np.start, np.end>> = np.for
+  /\ np.nodes = HonestNodes /\ <<np.start, np.end>> = np.for
   /\ rowRoot = RowRoot(np.key)
   /\ 0 <= np.start /\ np.start < np.end /\ np.end <= Len(np.key)
 
@@ -183,7 +187,7 @@ LIMIT == 10000                       \* dataRootTupleRootBlocksLimit
 HDataRoot(h) == <<"dr", "h", h>>     \* data hash of header h
 Tuple(h, dr) == <<"tuple", h, dr>>   \* encodeDataRootTuple
 TupleRoot(a, b) == <<"troot", a, b>> \* merkle root of the tuples of [a,b)
-HonestTP(h, a, b) == [range |-> <<a, b>>, height |-> h, index |-> h - a, total |-> b - a, aunts |-> "ok"]
+HonestTP(h, a, b) == [range |-> <<a, b>>, height |-> h, index |-> h - a, total |-> b - a, aunts |-> <<"a", "b">>]
 
 \* validateDataRootTupleRootRange + validateDataRootInclusionProofRequest
 RangeValid(a, b) == a # 0 /\ a < b /\ b - a <= LIMIT /\ b <= HEAD + 1
@@ -192,7 +196,7 @@ RequestValid(h, a, b) == RangeValid(a, b) /\ h >= a /\ h < b
 \* merkle.Proof.Verify(tupleRoot, tuple)
 TPVerifies(tp, root, leaf) ==
   /\ root = TupleRoot(tp.range[1], tp.range[2])
-  /\ tp.index = tp.height - tp.range[1] /\ tp.total = tp.range[2] - tp.range[1] /\ tp.aunts = "ok"
+  /\ tp.index = tp.height - tp.range[1] /\ tp.total = tp.range[2] - tp.range[1] /\ tp.aunts = <<"a", "b">>
   /\ leaf = Tuple(tp.height, HDataRoot(tp.height))
 
 (***************************************************************************)
@@ -204,6 +208,7 @@ DupLast(q) == IF q = <<>> THEN q ELSE Append(q, q[Len(q)])
 Swap01(q) == IF Len(q) < 2 THEN q ELSE <<q[2], q[1]>> \o SubSeq(q, 3, Len(q))
 Set0(q, x) == IF q = <<>> THEN q ELSE <<x>> \o SubSeq(q, 2, Len(q))
 Other0(q, o) == IF q = <<>> \/ o = <<>> THEN q ELSE Set0(q, o[1])
+Toggle0(q) == IF q = <<>> THEN q ELSE Set0(q, IF q[1] = "a" THEN "a*" ELSE IF q[1] = "a*" THEN "a" ELSE q[1])
 SeqOps == {"dropFirst", "dropLast", "dupLast", "swap01", "nil0", "other0"}
 ApplySeq(op, q, o, nilv) ==
   CASE op = "dropFirst" -> DropFirst(q)
@@ -221,17 +226,17 @@ ApplyNP0(op, q) ==
   Set0(q, CASE op = "start+1"  -> [np EXCEPT !.start = np.start + 1]
             [] op = "end+1"    -> [np EXCEPT !.end = np.end + 1]
             [] op = "end-1"    -> [np EXCEPT !.end = np.end - 1]
-            [] op = "dropNode" -> [np EXCEPT !.nodes = "short"]
-            [] op = "addNode"  -> [np EXCEPT !.nodes = "long"]
-            [] op = "altNode"  -> [np EXCEPT !.nodes = "alt"])
+            [] op = "dropNode" -> [np EXCEPT !.nodes = DropLast(np.nodes)]
+            [] op = "addNode"  -> [np EXCEPT !.nodes = Append(np.nodes, "x")]
+            [] op = "altNode"  -> [np EXCEPT !.nodes = Toggle0(np.nodes)])
 MPOps == {"index+1", "total+1", "dropAunt", "addAunt"}
 ApplyMP0(op, q) ==
   IF q = <<>> THEN q ELSE IF q[1] = Nil THEN q ELSE
   LET mp == q[1] IN
   Set0(q, CASE op = "index+1"  -> [mp EXCEPT !.index = mp.index + 1]
             [] op = "total+1"  -> [mp EXCEPT !.total = mp.total + 1]
-            [] op = "dropAunt" -> [mp EXCEPT !.aunts = "short"]
-            [] op = "addAunt"  -> [mp EXCEPT !.aunts = "long"])
+            [] op = "dropAunt" -> [mp EXCEPT !.aunts = DropLast(mp.aunts)]
+            [] op = "addAunt"  -> [mp EXCEPT !.aunts = Append(mp.aunts, "x")])
 
 RowProofTampers ==
   ({"rowRoots", "rowProofs"} \X SeqOps) \cup ({"rowProof0"} \X MPOps) \cup
@@ -320,13 +325,13 @@ ApplyTP(t, o, v) ==
     [] t = <<"index", "-1">> -> [v EXCEPT !.proof.index = v.proof.index - 1]
     [] t = <<"total", "+1">> -> [v EXCEPT !.proof.total = v.proof.total + 1]
     [] t = <<"total", "-1">> -> [v EXCEPT !.proof.total = v.proof.total - 1]
-    [] t = <<"aunts", "drop">> -> [v EXCEPT !.proof.aunts = "short"]
-    [] t = <<"aunts", "add">> -> [v EXCEPT !.proof.aunts = "long"]
+    [] t = <<"aunts", "drop">> -> [v EXCEPT !.proof.aunts = DropLast(v.proof.aunts)]
+    [] t = <<"aunts", "add">> -> [v EXCEPT !.proof.aunts = Append(v.proof.aunts, "x")]
     [] t = <<"leaf", "otherHeight">> -> [v EXCEPT !.leaf = Tuple(OtherHeight(o), HDataRoot(OtherHeight(o)))]
     [] t = <<"leaf", "outside">> -> [v EXCEPT !.leaf = Tuple(o[3], HDataRoot(o[3]))]
     [] t = <<"leaf", "wrongRoot">> -> [v EXCEPT !.leaf = Tuple(o[1], HDataRoot(OtherHeight(o) + 7))]
     [] t = <<"leaf", "empty">> -> [v EXCEPT !.leaf = <<>>]
-    [] t = <<"root", "otherRange">> -> [v EXCEPT !.root = TupleRoot(o[2], o[3] + 1)]
+    [] t = <<"root", "otherRange">> -> [v EXCEPT !.root = IF o[3] <= HEAD THEN TupleRoot(o[2], o[3] + 1) ELSE TupleRoot(o[2], o[3] - 1)]
     [] t = <<"root", "empty">> -> [v EXCEPT !.root = <<>>]
     [] t = <<"proof", "otherHeight">> -> [v EXCEPT !.proof = HonestTP(OtherHeight(o), o[2], o[3])]
 
@@ -425,18 +430,24 @@ VerifyTP(v) ==
   ELSE IF TPVerifies(v.proof, v.root, v.leaf) THEN "ok" ELSE "err"
 
 (* Proof.equal(input)  blob/blob.go, and Service.Included                  *)
-\* node lists as abstract lengths: "short" < "ok" < "long"; "alt": same length, one node differs
-NodesLen(x) == CASE x = "short" -> 1 [] x = "long" -> 3 [] OTHER -> 2
+\* the loop `for i, node := range pNodes { if !bytes.Equal(node, inputNodes[i]) ...` : the first position
+\* at which the lists differ ends it with an error; running out of input nodes is an index panic in the
+\* tree as found; surplus input nodes are never looked at there
+NodesCmp(own, inp) ==
+  LET m == IF Len(own) < Len(inp) THEN Len(own) ELSE Len(inp) IN
+  IF GUARDS /\ Len(own) # Len(inp) THEN "err"                               \* fix: lengths must agree
+  ELSE IF \E i \in 1..m : own[i] # inp[i] THEN "err"
+  ELSE IF Len(inp) < Len(own) THEN "panic"
+  ELSE "ok"
 ProofEqual(own, inp, lh) ==
   IF Len(own) # Len(inp) THEN "err"
   ELSE LET Elem(i) ==
          IF inp[i] = Nil THEN (IF GUARDS THEN "err" ELSE "panic")
-         ELSE IF GUARDS /\ NodesLen(inp[i].nodes) # NodesLen(own[i].nodes) THEN "err"        \* fix
-         ELSE IF ~GUARDS /\ NodesLen(inp[i].nodes) < NodesLen(own[i].nodes) THEN "panic"    \* inputNodes[i] out of range
-         ELSE IF inp[i].key # own[i].key \/ inp[i].for # own[i].for \/ inp[i].nodes = "alt" THEN "err"   \* a node differs
+         ELSE IF inp[i].key # own[i].key \/ inp[i].for # own[i].for THEN "err"      \* another proof's nodes differ
+         ELSE IF NodesCmp(own[i].nodes, inp[i].nodes) # "ok" THEN NodesCmp(own[i].nodes, inp[i].nodes)
          ELSE IF inp[i].start # own[i].start \/ inp[i].end # own[i].end THEN "err"
          ELSE IF i = 1 /\ lh # "ok" THEN "err"
-         ELSE "ok"                     \* (~GUARDS: surplus nodes of the input are never looked at)
+         ELSE "ok"
        first == IF \E i \in 1..Len(own) : Elem(i) # "ok"
                 THEN Elem(CHOOSE i \in 1..Len(own) : Elem(i) # "ok" /\ \A j \in 1..i - 1 : Elem(j) = "ok") ELSE "ok"
        IN first
